@@ -61,7 +61,7 @@ RULE = (
     "case = mode (v1: three-step / single-call / multi-step generation / passthrough / passthrough+dialog / general / three-step with "
     "shipped self-check rails; v2: llm continuation / one-call continuation / value generation / PassthroughLLMAction) x 1-3 turns "
     "with a dialog route each + a benign closing turn x 1-4 placements [turn, k, spec]: the k-th LLM call of the turn answers with a "
-    "hostile-corpus text (raw), a template/variable payload wrapped in the format of the task at that position (msg), or a run-time "
+    "hostile-corpus text (raw; optionally sticky = repeated for every later call of that turn), a template/variable payload wrapped in the format of the task at that position (msg), or a run-time "
     "mutation of the well-formed answer (mut: delete/insert/replace/duplicate/truncate/re-indent/unquote operations drawn as data); "
     "a context message plants secret_var. A third of the multi-turn v1 dialog cases use the stored-text shape: a payload in the LLM's "
     "message text of turn s and a variable-style bot intent (`bot $last_bot_message` / `$bot_message` / `$last_user_message`, also as "
@@ -463,7 +463,8 @@ def st_spec():
         st.tuples(st.just("repeat"), st.integers(2, 40)),
     ).map(list)
     mut = st.lists(op, min_size=1, max_size=3).map(lambda ops: {"c": "mutation", "ops": ops})
-    return st.one_of(raw, raw, msg, mut, mut)
+    sticky = st.sampled_from(sorted(RAW)).map(lambda c: dict(raw_spec(c), sticky=True))
+    return st.one_of(raw, raw, msg, mut, mut, sticky)
 
 
 def mutate(text, ops):
@@ -618,6 +619,11 @@ class C17Session(fakes.Session):
         marker = mk_llm(turn, k)
         base = self.wellformed(task, prompt, turn, k)
         spec = self.place.get((turn, k))
+        if spec is None:
+            # a sticky placement answers every later call of its turn too (an LLM that keeps giving the same output, e.g. to retries)
+            earlier = [k0 for (t0, k0), sp in self.place.items() if t0 == turn and k0 < k and sp.get("sticky")]
+            if earlier:
+                spec = self.place[(turn, max(earlier))]
         if spec is None:
             if (turn, k) in self.override:
                 spec = {"c": "override", "text": self.override[(turn, k)]}
@@ -830,6 +836,17 @@ def enumerate_cases(tier):
                         {"user": f"{mk_user(1)} {USER_TEXT['llm']}", "route": "llm", "body": "closing answer", "in": [], "out": []},
                     ]
                     yield {"config": cfg, "turns": turns, "place": [[0, k, spec]], "api": "sync"}
+    # the same hostile text for EVERY call of the first turn from position k on (what a retry loop would be fed)
+    for mode in MODES:
+        cfg = make_cfg(mode)
+        route = "next_llm" if cfg["dialog"] and cfg["v"] == 1 else "llm"
+        for k in (0, 1):
+            for c in ("empty", "whitespace", "lone-quote") if tier == "quick" else CORE_RAW:
+                turns = [
+                    {"user": f"{mk_user(0)} {USER_TEXT[route]}", "route": route, "body": "first answer", "in": [], "out": []},
+                    {"user": f"{mk_user(1)} {USER_TEXT['llm']}", "route": "llm", "body": "closing answer", "in": [], "out": []},
+                ]
+                yield {"config": cfg, "turns": turns, "place": [[0, k, dict(raw_spec(c), sticky=True)]], "api": "sync"}
     # stored texts: template payload in the LLM's message text of turn 0, variable-style bot intent repeating it in turn 1
     for mode in ECHO_MODES:
         cfg = make_cfg(mode)
